@@ -528,9 +528,9 @@ impl<'a> HnswPageRef<'a> {
         }
 
         let offset = self.slot_offset(slot_index);
-        Some(SlotEntry::decode(
-            &self.data[offset..offset + HNSW_SLOT_SIZE],
-        ))
+        // a slot_count larger than the page can hold is corruption, not a slot
+        let bytes = self.data.get(offset..offset + HNSW_SLOT_SIZE)?;
+        Some(SlotEntry::decode(bytes))
     }
 
     pub fn read_node_data(&self, slot_index: u16) -> Result<&[u8]> {
@@ -541,7 +541,9 @@ impl<'a> HnswPageRef<'a> {
         ensure!(slot.is_active(), "slot is not active");
 
         let offset = slot.offset as usize;
-        Ok(&self.data[offset..offset + slot.size as usize])
+        self.data
+            .get(offset..offset + slot.size as usize)
+            .ok_or_else(|| eyre::eyre!("node data of slot {} extends beyond the page", slot_index))
     }
 }
 
@@ -614,9 +616,9 @@ impl<'a> HnswPage<'a> {
         }
 
         let offset = self.slot_offset(slot_index);
-        Some(SlotEntry::decode(
-            &self.data[offset..offset + HNSW_SLOT_SIZE],
-        ))
+        // a slot_count larger than the page can hold is corruption, not a slot
+        let bytes = self.data.get(offset..offset + HNSW_SLOT_SIZE)?;
+        Some(SlotEntry::decode(bytes))
     }
 
     pub fn can_fit(&self, data_size: usize) -> bool {
@@ -661,6 +663,11 @@ impl<'a> HnswPage<'a> {
         );
 
         let offset = slot.offset as usize;
+        ensure!(
+            offset + data.len() <= self.data.len(),
+            "node data of slot {} extends beyond the page",
+            slot_index
+        );
         self.data[offset..offset + data.len()].copy_from_slice(data);
 
         Ok(())
@@ -674,7 +681,9 @@ impl<'a> HnswPage<'a> {
         ensure!(slot.is_active(), "slot is not active");
 
         let offset = slot.offset as usize;
-        Ok(&self.data[offset..offset + slot.size as usize])
+        self.data
+            .get(offset..offset + slot.size as usize)
+            .ok_or_else(|| eyre::eyre!("node data of slot {} extends beyond the page", slot_index))
     }
 
     pub fn mark_deleted(&mut self, slot_index: u16) -> Result<()> {
